@@ -139,3 +139,110 @@ def oracle_rows(c, obs, check_complete):
         elif not got_aa <= {x for x in exp_aa} | got_aa & exp_aa and False:
             pass
     return probs
+
+
+# ------------------------------------------------------------------ the closest command through the built binary
+
+def closest_cmd_layer(ctx, cm, gen, n_inputs=3):
+    """`gofasta closest` through the built binary: the measure option is case-insensitive (the cmd layer validates its lower-cased
+    form), with and without -n / -d / --table; and the binary's bytes equal the library entry point's (the one the Coq model
+    is compared with) for the lower-case spelling.  Returns the number of runs."""
+    import os, shutil, tempfile
+    binp = cm.build_binary(ctx.log)
+    if not binp:
+        cm.violation(ctx, "binary-build", {"what": "gofasta does not build"}, no_failing_input=True)
+        return 0
+    rng = ctx.rng
+    runs = 0
+    tmp = tempfile.mkdtemp(prefix="verif-closest-")
+    try:
+        for k in range(n_inputs):
+            w = rng.choice([12, 30])
+            ref = gen.rand_seq(rng, w)
+            qrecs = [("q%d" % i, gen.mutate(rng, ref, p_sub=0.15, p_amb=0.05, p_gap=0.03, p_lower=0.05)) for i in range(2)]
+            trecs = [("t%d" % i, gen.mutate(rng, ref, p_sub=0.2, p_amb=0.05, p_gap=0.03, p_lower=0.05)) for i in range(rng.randint(3, 7))]
+            qb, tb = gen.layout(rng, qrecs, "plain"), gen.layout(rng, trecs, "plain")
+            qp, tp = os.path.join(tmp, "q%d.fasta" % k), os.path.join(tmp, "t%d.fasta" % k)
+            open(qp, "wb").write(qb)
+            open(tp, "wb").write(tb)
+            K = rng.randint(1, len(trecs))
+            shapes = [([], {"n": 0}), (["-n", str(K)], {"n": K}), (["-n", str(K), "--table"], {"n": K, "table": True}), (["-d", "0.2"], {"n": 0, "maxdist": 0.2})]
+            for measure in ("raw", "snp", "tn93"):
+                for extra_args, libopts in shapes:
+                    base = cm.run_binary(binp, ["closest", "--query", qp, "--target", tp, "-m", measure] + extra_args)
+                    runs += 1
+                    lib = cm.go_run([dict({"id": 0, "op": "closest", "query": cm.b64(qb), "target": cm.b64(tb), "measure": measure,
+                                           "table": False, "threads": 1}, **libopts)], ctx.log)[0]
+                    if base[0] != "ok" or lib["status"] != "ok" or base[2] != cm.unb64(lib["out"]):
+                        cm.violation(ctx, "failing-input", {"what": "gofasta closest -m %s %s: the binary's output differs from the library entry point's" % (measure, " ".join(extra_args)),
+                                                            "query": qb.decode(), "target": tb.decode(), "binary": [base[0], base[2].decode("latin1")[:600]],
+                                                            "library": [lib["status"], cm.unb64(lib.get("out", "")).decode("latin1")[:600]]})
+                        return runs
+                    for spelled in (measure.upper(), measure.capitalize()):
+                        alt = cm.run_binary(binp, ["closest", "--query", qp, "--target", tp, "-m", spelled] + extra_args)
+                        runs += 1
+                        if alt[0] != base[0] or alt[2] != base[2]:
+                            cm.violation(ctx, "failing-input", {"what": "gofasta closest -m %s %s differs from -m %s (the measure option is case-insensitive)" % (spelled, " ".join(extra_args), measure),
+                                                                "query": qb.decode(), "target": tb.decode(), "with_%s" % spelled: [alt[0], alt[2].decode("latin1")[:600]],
+                                                                "with_%s" % measure: [base[0], base[2].decode("latin1")[:600]]})
+                            return runs
+    finally:
+        shutil.rmtree(tmp, ignore_errors=True)
+    return runs
+
+
+# ------------------------------------------------------------------ the SAM form of a pairwise relation
+
+def cigar_of(ref, que):
+    """CIGAR of the pairwise relation between a gapped reference row and a query row (columns that are gaps in both skipped)."""
+    ops = []
+    for r, q in zip(ref, que):
+        if r == "-" and q == "-":
+            continue
+        o = "I" if r == "-" else "D" if q == "-" else "M"
+        if ops and ops[-1][0] == o:
+            ops[-1] = (o, ops[-1][1] + 1)
+        else:
+            ops.append((o, 1))
+    return ops
+
+
+def sam_form_stage(ctx, cm, gen, samgen, anno, cases, obs, bad, get_pairs):
+    """Every case's pairwise relations written as one SAM record per query and given to `sam variants` (one worker): its rows
+    must equal the rows `variants` printed for the FASTA-MSA form.  Returns the number of runs."""
+    stage, plan = [], []
+    for c in cases:
+        pairs = get_pairs(c)
+        if not pairs or obs[c["id"]]["status"] != "ok":
+            continue
+        genome = c["info"]["genome"]
+        recs = [{"name": nm, "flag": 0, "pos": 0, "cigar": cigar_of(ref, que), "seq": que.replace("-", "").upper()} for nm, ref, que in pairs]
+        if any(not r["seq"] or not r["cigar"] for r in recs):
+            continue
+        samb = samgen.render_sam("REF", len(genome), recs)
+        refb = gen.layout(ctx.rng, [("REF", genome)], "plain")
+        g = c["go"]
+        stage.append({"id": len(stage), "op": "samvariants", "sam": cm.b64(samb), "ref": cm.b64(refb), "anno": cm.b64(c["info"]["annob"]),
+                      "suffix": c["info"]["suffix"], "ref_from_file": True, "start": g.get("start", -1), "end": g.get("end", -1),
+                      "append_snps": g.get("append_snps", False), "aggregate": False, "threads": 1})
+        plan.append((c, samb))
+    if not stage:
+        return 0
+    res = cm.go_run(stage, ctx.log)
+    for k, (c, samb) in enumerate(plan):
+        o = res[k]
+        msa_rows = dict(anno.parse_rows(cm.unb64(obs[c["id"]]["out"]))[1])
+        probs = []
+        if o["status"] != "ok":
+            probs.append("sam variants refused the SAM form of the same alignment: %s %s" % (o["status"], o.get("err", "")[:200]))
+        else:
+            for name, muts in anno.parse_rows(cm.unb64(o["out"]))[1]:
+                if msa_rows.get(name) != muts:
+                    probs.append("%s: SAM form reports %r, FASTA-MSA form reports %r" % (name, muts, msa_rows.get(name)))
+        if probs:
+            c["sample"].setdefault("oracle_problems", [])
+            c["sample"]["oracle_problems"] += probs[:3]
+            c["sample"]["sam_form"] = samb.decode()
+            if c not in bad:
+                bad.append(c)
+    return len(stage)
